@@ -132,6 +132,15 @@ def rule_vis_guard(chk, prog):
     pc = path_condition(fn, site[0])
     ats = atoms(pc)
     vis = [a for a in ats if a.startswith("Avoid::sweepVisible(")]
+    if not vis:
+        # the sweep's verdict may be kept in a local that later checks can only LOWER (store false): the branch then depends on
+        # sweepVisible() && (no later check objected)
+        for d in fn.nodes():
+            if d.get("k") == "VarDecl" and d.get("name") in ats and d.get("init") is not None and norm(d["init"]).startswith("Avoid::sweepVisible("):
+                later = [node for lhs, node, op in writes(fn) if norm(lhs) == d["name"]]
+                if all(op_ == "=" and literal_value(nd["ch"][1]) == "false" for (l_, nd, op_) in [(None, x, "=") for x in later] if True) and \
+                        all(literal_value(x["ch"][1]) == "false" for x in later):
+                    vis = [d["name"]]
     bad = None
     if not vis:
         bad = "the visibility branch no longer depends on sweepVisible()"
@@ -756,6 +765,74 @@ def rule_outside_visibility(chk, prog):
         raise AnalysisBroken("fixConnectionPointVisibilityOnOutsideOfVisibilityGraph: the two stores were not recognised")
 
 
+def rule_deleted_obstacle_ends(chk, prog):
+    r = chk.rule("DELETED-OBSTACLE-ENDS", "Router::processActions, removal of an obstacle: before the obstacle is made inactive, EVERY connector end attached "
+                 "to it (loop over m_following_conns, no iteration skipped) is queued as an end-point change to a free point at the end's current "
+                 "position -- a new ConnChange action or an addition to the one already queued for that connector; without it the end vertex "
+                 "stays a dummy pin vertex without visibility and the route becomes a straight line to the deleted shape's centre", floor=1)
+    fn = prog.fn("Avoid::Router::processActions")
+    g = CFG(fn)
+    inact = [c for c in calls(fn) if c.get("cname") in ("Avoid::Obstacle::makeInactive", "Avoid::ShapeRef::makeInactive", "Avoid::JunctionRef::makeInactive")]
+    loops = [n for n in fn.nodes() if n.get("k") == "ForStmt" and "m_following_conns" in norm(n.get("init")) + norm(n.get("cond"))]
+    r.count()
+    bad = None
+    if not inact:
+        raise AnalysisBroken("processActions: makeInactive not found")
+    if not loops:
+        bad = "no loop over the deleted obstacle's attached connector ends (m_following_conns)"
+    else:
+        lp = loops[0]
+        pushes = [c for c in walk(lp["body"]) if c.get("k") == "CXXMemberCallExpr" and (
+            (str(c.get("cname", "")).endswith("::push_back") and norm(call_object(c)) == "actionList") or c.get("cname") == "Avoid::ActionInfo::addConnEndUpdate")]
+        if len(pushes) < 2 or g.iteration_can_skip(lp, [c["id"] for c in pushes]) is not None:
+            bad = "an attached end can pass the loop without an end-point change being queued for it"
+        elif not any(n.get("k") == "CXXConstructExpr" and n.get("cname") == "Avoid::ConnEnd" and any("position()" in norm(a) for a in n.get("ch", []))
+                     for n in walk(lp["body"])):
+            bad = "the queued end is not a free point at the attached end's current position()"
+        else:
+            same_iter = [a for a in fn.ancestors(lp) if a.get("k") in ("ForStmt", "WhileStmt") and any(x.get("id") == inact[0].get("id") for x in walk(a.get("body") or {}))]
+            if not same_iter or not (lp.get("l", 0) < inact[0].get("l", 0)):
+                bad = "the obstacle is made inactive (which disconnects the ends) before their updates are queued"
+            pc = path_condition(fn, lp, inline=False)
+            if not any("isMove" in a or "Remove" in a or "remove" in a.lower() for a in atoms(pc)):
+                bad = bad or "the loop is not on the removal branch (%s)" % show(pc)[:100]
+    (r.bad if bad else r.ok)("processActions (obstacle removal)", fn.loc(loops[0]) if loops else fn.where(), bad or "")
+
+
+def rule_sweep_chord(chk, prog):
+    r = chk.rule("SWEEP-CHORD", "vertexSweep (Lee's algorithm): a sweep centre that coincides with a vertex of an obstacle is recorded as lying on that "
+                 "obstacle's border (besides centres on the open sides, SWEEP-BORDER), and a target that sweepVisible() accepts is still rejected "
+                 "when chordThroughBorderObstacle() says the line is a chord through one of the recorded obstacles -- checked for every recorded "
+                 "obstacle; the verdict can only be lowered", floor=2)
+    fn = prog.fn("Avoid::vertexSweep")
+    ins = [c for c in calls(fn) if str(c.get("cname", "")).endswith("::insert") and norm(call_object(c)) == "onBorderIDs"]
+    r.count()
+    corner = False
+    for c in ins:
+        ats = atoms(path_condition(fn, c, inline=True))
+        if any(re.search(r"\.point == (centerInf|vert)\.point\)$", a) or re.search(r"^\((centerInf|vert)\.point == .*\.point\)$", a) for a in ats) \
+                and not any("pointOnLine" in a or "vecDir" in a for a in ats):
+            corner = True
+    (r.ok if corner else r.bad)("centre on an obstacle corner recorded", fn.where(), "" if corner else
+                                "a centre that coincides with an obstacle vertex is not recorded in onBorderIDs (pointOnLine tests the open sides only): a "
+                                "chord from that corner through the obstacle is then accepted")
+    r.count()
+    ch = [c for c in calls(fn) if c.get("cname") == "Avoid::chordThroughBorderObstacle"]
+    bad = None
+    if not ch:
+        bad = "no chord test after sweepVisible()"
+    else:
+        lp = [a for a in fn.ancestors(ch[0]) if a.get("k") == "ForStmt"]
+        if not lp or "onBorderVerts" not in norm(lp[0].get("init")) + norm(lp[0].get("cond")):
+            bad = "the chord test is not applied to every obstacle the centre lies on"
+        else:
+            lowered = [node for lhs, node, op in writes(fn) if norm(lhs) == "currVisible" and literal_value(node["ch"][1]) == "false"
+                       and any(x.get("id") == node.get("id") for x in walk(lp[0]["body"]))]
+            if not lowered:
+                bad = "a chord through an obstacle does not lower the visibility verdict"
+    (r.bad if bad else r.ok)("chord test after the sweep's verdict", fn.loc(ch[0]) if ch else fn.where(), bad or "")
+
+
 def run(chk):
     prog = chk.load()
     chk.guard(rule_callers, chk, prog)
@@ -769,6 +846,8 @@ def run(chk):
     chk.guard(rule_sweep_set_total, chk, prog)
     chk.guard(rule_path_edges_registered, chk, prog)
     chk.guard(rule_outside_visibility, chk, prog)
+    chk.guard(rule_deleted_obstacle_ends, chk, prog)
+    chk.guard(rule_sweep_chord, chk, prog)
     from .c16 import rule_shape_blocking
     chk.guard(rule_shape_blocking, chk, prog, ("square",))      # which segments a convex obstacle blocks
     chk.guard(rule_free_side_lines, chk, prog)
